@@ -1,6 +1,7 @@
 package rules
 
 import (
+	"regexp"
 	"go/token"
 	"go/types"
 
@@ -48,3 +49,6 @@ func invokeSites(fn *ssa.Function) []invokeSite {
 	walk(fn)
 	return out
 }
+
+// siteRE matches the call-site suffix of printed call terms.
+var siteRE = regexp.MustCompile(`@[0-9]+`)
